@@ -34,6 +34,7 @@ FILE_QUERIES = ["(|D| D entry (pos < 3) offset)", "(|D| D name)", "(|D| [D unit 
                 "(|D| D entry (pos < 2) offset, D symbol (pos < 2) name)", "(|D| D entry !())", "(|D| 7)"]
 # queries whose result count depends on the input, so that some iterations match and others do not
 ARG_DEP_QUERIES = ["(== 1)", "(== 2) \"two\"", "(> 15)", "(!= 1)", "?(type == T_STR)", "(== 3) (1, 2)"]
+POS_QUERIES = ["pos", "?0", "?1", "(|A| A pos)", "!0 \"later\""]       # the position of the input value is part of the input
 FILE_DEP_QUERIES = ["(|D| D entry ?TAG_enumerator name)", "(|D| D entry ?TAG_structure_type offset)",
                     "(|D| D symbol (name == \"main\") name)", "(|D| D entry ?TAG_subprogram (pos < 9) name)"]
 ARGS = [("-a", "str"), ("-a", "x y"), ("--a", "5"), ("--a", "(1, 2)"), ("--a", "(1, 2, 3) 10 mul"), ("--a", "!()"), ("--a", "\"s\""),
@@ -109,8 +110,10 @@ def expected(drv, case, handles):
             vals = []
             for st in r["res"]:
                 tos = st[-1]
-                tok = {"c": lambda x: "I%s:%s" % (x["d"], x["v"]), "s": lambda x: "S" + x["x"],
-                       "q": lambda x: "[ " + " ".join(("I%s:%s" % (e["d"], e["v"])) if e["t"] == "c" else "S" + e["x"] for e in x["e"]) + " ]"}[tos["t"]](tos)
+                # (each value keeps the position it was yielded with)
+                tok = {"c": lambda x: "I%s:%s@%d" % (x["d"], x["v"], x["p"]), "s": lambda x: "S%s@%d" % (x["x"], x["p"]),
+                       "q": lambda x: "[ " + " ".join(("I%s:%s@%d" % (e["d"], e["v"], e["p"])) if e["t"] == "c" else "S%s@%d" % (e["x"], e["p"])
+                                                      for e in x["e"]) + " ]@%d" % x["p"]}[tos["t"]](tos)
                 vals.append((tok, render_value(tos)))
             argvals.append(vals)
     # the query is compiled before files are opened
@@ -123,7 +126,8 @@ def expected(drv, case, handles):
         unopenable = 0
         for f in case.files:
             if f in handles:
-                opened.append((("V%d" % handles[f]), f.encode()))
+                # the files that could be opened are numbered 0, 1, 2, ... -- the others are skipped
+                opened.append((("V%d@%d" % (handles[f], len(opened))), f.encode()))
             else:
                 unopenable += 1
         if unopenable:
@@ -272,6 +276,8 @@ def make_case(rnd):
             pool += FILE_DEP_QUERIES * 2
     if args:
         pool += ARG_DEP_QUERIES * 2
+    if args or files:
+        pool += POS_QUERIES
     query = rnd.choice(pool)
     if source == "pos" and query == "":
         source = "-e"
